@@ -445,3 +445,142 @@ func (e *Engine) dependsObligations(fn *ssa.Function, fc *FuncContract, ctx *FnC
 	}
 	return out
 }
+
+// lendObligations: the slice returned by (*bytes.Buffer).Bytes() aliases the buffer's storage. When such a slice
+// leaves the function (returned, or handed to a callback) the buffer must have been created by this very
+// activation (so nobody can Reset or write it afterwards while the caller still holds the bytes).
+func (e *Engine) lendObligations(fn *ssa.Function, fc *FuncContract, ctx *FnCtx) []*Obligation {
+	if fn.Blocks == nil {
+		return nil
+	}
+	oa := newOriginAnalysis(e, fn)
+	fname := fn.RelString(fn.Pkg.Pkg)
+	var out []*Obligation
+	n := 0
+	// does value v (transitively through local variables, conversions, tuple construction) reach a Return or a call argument?
+	escapes := func(v ssa.Value) bool {
+		seen := map[ssa.Value]bool{}
+		var walk func(v ssa.Value) bool
+		walk = func(v ssa.Value) bool {
+			if seen[v] {
+				return false
+			}
+			seen[v] = true
+			refs := v.Referrers()
+			if refs == nil {
+				return false
+			}
+			for _, r := range *refs {
+				switch x := r.(type) {
+				case *ssa.Return:
+					return true
+				case *ssa.Call:
+					if _, isB := x.Call.Value.(*ssa.Builtin); isB {
+						if walk(x) {
+							return true
+						}
+						continue
+					}
+					if callee := x.Call.StaticCallee(); callee != nil && callee.Pkg != nil && callee.Pkg.Pkg.Path() == "bytes" {
+						continue // bytes.NewReader(b.Bytes()) etc. do not retain beyond the call chain we track
+					}
+					return true
+				case *ssa.Store:
+					if a, ok := x.Addr.(*ssa.Alloc); ok && x.Val == v {
+						for _, lr := range *a.Referrers() {
+							if ld, ok := lr.(*ssa.UnOp); ok && ld.Op == token.MUL {
+								if walk(ld) {
+									return true
+								}
+							}
+						}
+						continue
+					}
+					if x.Val == v {
+						return true // stored into memory we do not track
+					}
+				case *ssa.Convert:
+					// string(b) copies
+					if _, isStr := x.Type().Underlying().(*types.Basic); isStr {
+						continue
+					}
+					if walk(x) {
+						return true
+					}
+				case *ssa.ChangeType, *ssa.MakeInterface, *ssa.Slice, *ssa.Phi:
+					if walk(r.(ssa.Value)) {
+						return true
+					}
+				}
+			}
+			return false
+		}
+		return walk(v)
+	}
+	for _, b := range fn.Blocks {
+		for _, in := range b.Instrs {
+			c, ok := in.(*ssa.Call)
+			if !ok {
+				continue
+			}
+			callee := c.Call.StaticCallee()
+			if callee == nil || callee.String() != "(*bytes.Buffer).Bytes" {
+				continue
+			}
+			if !escapes(c) {
+				continue
+			}
+			// origin of the buffer pointer
+			fresh := true
+			seen := map[ssa.Value]bool{}
+			var orig func(v ssa.Value)
+			orig = func(v ssa.Value) {
+				if seen[v] {
+					return
+				}
+				seen[v] = true
+				switch x := v.(type) {
+				case *ssa.Alloc:
+					if x.Heap && len(oa.stores[x]) == 0 {
+						return // new(bytes.Buffer)
+					}
+					for _, sv := range oa.stores[x] {
+						orig(sv)
+					}
+					if len(oa.stores[x]) == 0 {
+						fresh = false
+					}
+				case *ssa.UnOp:
+					if x.Op == token.MUL {
+						orig(x.X)
+						return
+					}
+					fresh = false
+				case *ssa.Call:
+					if cal := x.Call.StaticCallee(); cal != nil && (cal.String() == "bytes.NewBuffer" || cal.String() == "bytes.NewBufferString") {
+						return
+					}
+					fresh = false
+				default:
+					fresh = false
+				}
+			}
+			orig(c.Call.Args[0])
+			o := &Obligation{Name: fmt.Sprintf("%s:own:lend#%d Buffer.Bytes", fname, n), Kind: "own", Func: fname, Ctx: ctx, Solver: "ssa-dataflow", Status: "unsat",
+				Src: "bytes handed out by Buffer.Bytes() must come from a buffer created by this call"}
+			n++
+			if fc != nil {
+				o.Props = fc.Props
+			}
+			if c.Pos().IsValid() {
+				o.Pos = e.ld.Fset.Position(c.Pos())
+			}
+			if !fresh {
+				o.Status = "failed"
+				o.Output = "the slice returned by Buffer.Bytes() leaves the function but the buffer was not created here: whoever owns the buffer can overwrite the bytes later (Reset / Write)"
+			}
+			out = append(out, o)
+		}
+	}
+	return out
+}
